@@ -90,3 +90,11 @@ func init() {
 		}
 	}
 }
+
+func init() {
+	dumpers["droppederrs"] = func(p *Prog, m *Model) {
+		for _, d := range droppedErrors(p) {
+			fmt.Printf("%s\t%s\t%s\t%s\n", p.ipos(d.Site.In), shortName(d.Site.Fn), d.Site.calleeName(), d.How)
+		}
+	}
+}
